@@ -434,6 +434,9 @@ func (pc *pconn) exchange(cbr, ubr *bufio.Reader) bool {
 	if pl != nil && pl.Kind == "answer" {
 		return pc.answer(pl, cbr)
 	}
+	// From here until the answer is complete the client has nothing to send: if its side of the connection
+	// ends meanwhile (FIN / RST), the upstream side ends too, as it would without a relay in between.
+	defer pc.watchClient(cbr)()
 	at := func(point string) bool { return pl != nil && pl.Point == point }
 
 	if at("pre-request") {
@@ -488,10 +491,10 @@ func (pc *pconn) exchange(cbr, ubr *bufio.Reader) bool {
 		}
 		rhead = rhead[o:]
 	}
+	pc.px.noteStatus(status) // counted before it is written: the reader of the count may be the one who got it
 	if !pc.w(rhead) {
 		return false
 	}
-	pc.px.noteStatus(status)
 	if at("resp-headers") {
 		if pc.hit(pl) {
 			return false
@@ -732,11 +735,13 @@ func (pc *pconn) answer(pl *Plan, cbr *bufio.Reader) bool {
 		}
 		b.WriteString("\r\n")
 	}
-	ok := pc.w(b.Bytes())
-	if ok {
-		pc.px.noteStatus(a.Status)
-		pl.markFired()
-	}
+	// the answer counts as delivered once its head is out (a client may hang up on a large body)
+	all := b.Bytes()
+	hl := bytes.Index(all, []byte("\r\n\r\n")) + 4
+	// (and is counted before it is written: whoever reads the count may be the one who just got the answer)
+	pc.px.noteStatus(a.Status)
+	pl.markFired()
+	ok := pc.w(all[:hl]) && pc.w(all[hl:])
 	switch {
 	case !ok:
 		return false
@@ -759,4 +764,24 @@ func statusText(code int) string {
 		return t
 	}
 	return "Status"
+}
+
+// watchClient notices the client's end of the connection going away while an answer is awaited / relayed.
+// The returned func stops the watch (before the next request head is read from the same reader).
+func (pc *pconn) watchClient(cbr *bufio.Reader) (stop func()) {
+	done := make(chan struct{})
+	go func() {
+		defer close(done)
+		if _, err := cbr.Peek(1); err != nil {
+			if ne, ok := err.(net.Error); ok && ne.Timeout() {
+				return // stopped
+			}
+			pc.shut(false)
+		}
+	}()
+	return func() {
+		pc.cli.SetReadDeadline(time.Unix(1, 0))
+		<-done
+		pc.cli.SetReadDeadline(time.Time{})
+	}
 }
